@@ -109,11 +109,11 @@ func MakeShared(sh Shape) (*Shared, error) {
 		}
 	}
 	s := &Shared{Tok: tok, Pub: pub, Parser: sharedParser}
-	s.PBlock, err = sharedParser.Block(`shared("value", 1); derived($x) <- shared($x, $y), $y < 5; check if operation("read");`, nil)
+	s.PBlock, err = sharedParser.Block(`shared("value", 1); derived($x) <- shared($x, $y), $y < 5; check if operation("read"); scopes(["write", "read"]);`, nil)
 	if err != nil {
 		return nil, err
 	}
-	s.PAuth, err = sharedParser.Authorizer(`operation("read"); resource("file1"); allowed($r) <- resource($r); check if right("read", "read"); allow if allowed("file1"); deny if true;`, nil)
+	s.PAuth, err = sharedParser.Authorizer(`operation("read"); resource("file1"); allowed($r) <- resource($r); check if right("read", "read"); check if ["write", "read", "admin"].contains($op), operation($op); allow if allowed("file1"), ["z", "a"].contains("a"); deny if true;`, nil)
 	if err != nil {
 		return nil, err
 	}
